@@ -12,6 +12,7 @@ model call, responses in completion order); Coq replays model/Server.v on it.
 GRPCNetwork.evaluate runs against a stub that serves from the same loop and
 passes the reply through the EvaluateResponse stand-in."""
 import asyncio
+import copy
 import concurrent.futures
 import hashlib
 import json
@@ -67,6 +68,13 @@ CHECK_X = ("fun c => let '(evs, lats, bs, ids) := c in let st := run _ ref_frow 
            "timely _ ref_frow lats evs && list_eqb_by beq (obs_batches st) bs && zlist_eqb (map fst (obs_answers st)) ids")
 SHOW_X = ("fun c => let '(evs, lats, bs, ids) := c in let st := run _ ref_frow evs in "
           "(timely _ ref_frow lats evs, obs_batches st, map fst (obs_answers st))")
+# schedules with cancelled callers: the model serves a cancelled request like any other, its answer is discarded
+CTYPE_K = "list event * list Z * list (Z * list Z) * list (Z * (list Z * Z)) * list Z"
+CHECK_K = ("fun c => let '(evs, lats, bs, ans, cs) := c in let st := run _ ref_frow evs in "
+           "timely _ ref_frow lats evs && list_eqb_by beq (obs_batches st) bs && "
+           "list_eqb_by aeq (filter (fun a => negb (existsb (Z.eqb (fst a)) cs)) (obs_answers st)) ans")
+SHOW_K = ("fun c => let '(evs, lats, bs, ans, cs) := c in let st := run _ ref_frow evs in "
+          "(timely _ ref_frow lats evs, obs_batches st, map fst (obs_answers st), cs)")
 CTYPE_C = "list Z * list Z * list Z * Z * Z"
 CHECK_C = ("fun c => let '(ws, bytes, cws, v, cv) := c in zlist_eqb (encode_words ws) bytes && "
            "match decode_bytes bytes with Some d => zlist_eqb d cws | None => false end && zlist_eqb cws ws && (v =? cv)%Z")
@@ -243,8 +251,12 @@ def _log_worker_runs(server, loop, log):
 # --------------------------------------------------------------------------
 # running one schedule on the real server
 # --------------------------------------------------------------------------
-def run_schedule(arrivals, base_lats, model_kind="hash", transformer=None):
-    """arrivals: [(id, t_us, [tokens])] with increasing t_us.  Returns the observation dict."""
+CANCEL_OFFSET = 25   # a caller is cancelled 25 us after it arrived: off the arrival grid (0) and the completion grid (50)
+
+
+def run_schedule(arrivals, base_lats, model_kind="hash", transformer=None, cancels=()):
+    """arrivals: [(id, t_us, [tokens])] with increasing t_us; cancels: ids whose Evaluate task is cancelled
+    CANCEL_OFFSET us after it arrived (i.e. while it waits for its answer).  Returns the observation dict."""
     import numpy as np
     import torch
     from tak.model import server as srv
@@ -274,11 +286,15 @@ def run_schedule(arrivals, base_lats, model_kind="hash", transformer=None):
     _log_worker_runs(server, loop, log)
     answers, returned = [], {}
     state = {"left": len(arrivals), "worker_error": None}
-    tasks = []
+    tasks, task_of, cancelled = [], {}, []
 
     async def client(i, pos):
         log.append(("A", i, loop.now_us()))
-        resp = await server.Evaluate(analysis_pb2.EvaluateRequest(position=pos), None)
+        try:
+            resp = await server.Evaluate(analysis_pb2.EvaluateRequest(position=pos), None)
+        except asyncio.CancelledError:
+            cancelled.append(i)
+            raise
         returned[i] = returned.get(i, 0) + 1
         words = np.frombuffer(resp.move_probs_bytes, dtype=np.uint32).tolist()
         vbits = int(np.array([resp.value], dtype=np.float32).view(np.uint32)[0])
@@ -299,10 +315,17 @@ def run_schedule(arrivals, base_lats, model_kind="hash", transformer=None):
 
         def start(group):
             for (i, pos) in group:
-                tasks.append(asyncio.ensure_future(client(i, list(pos))))
+                task_of[i] = asyncio.ensure_future(client(i, list(pos)))
+                tasks.append(task_of[i])
 
         for t in sorted(groups):
             loop.call_at(t * 1e-6, start, groups[t])
+        when = {i: t for (i, t, _) in arrivals}
+        for i in cancels:
+            loop.call_at((when[i] + CANCEL_OFFSET) * 1e-6, lambda i=i: task_of[i].cancel())
+        if cancels:
+            # the answer of a cancelled caller is still computed: run until nothing is left to happen
+            await asyncio.Event().wait()
         await all_done.wait()
         # let the loop drain what is scheduled at this instant, then stop
         await asyncio.sleep(0)
@@ -312,7 +335,8 @@ def run_schedule(arrivals, base_lats, model_kind="hash", transformer=None):
     try:
         loop.run_until_complete(main())
     except Quiescent:
-        end = "quiescent-with-unanswered"
+        end = ("complete" if cancels and all(i in returned or i in cancelled for (i, _, _) in arrivals)
+               else "quiescent-with-unanswered")
     except Runaway:
         end = "runaway"
     except BaseException as e:  # noqa
@@ -339,7 +363,8 @@ def run_schedule(arrivals, base_lats, model_kind="hash", transformer=None):
         "lats": lats_used,
         "batches": [[s, rows] for (s, rows) in batches],
         "answers": answers,
-        "unanswered": [i for i in ids if i not in returned],
+        "unanswered": [i for i in ids if i not in returned and i not in cancelled],
+        "cancelled": sorted(cancelled),
         "end": end,
         "worker_error": state["worker_error"],
     }
@@ -622,6 +647,11 @@ def c_case(sched, obs):
     return f"({c_events(sched, obs)}, {czlist(obs['lats'])}, {c_batches(obs)}, {ans})"
 
 
+def c_case_k(sched, obs):
+    ans = clist([f"({cz(a['id'])}, ({czlist(a['words'])}, {cz(a['value_bits'])}))" for a in obs["answers"]])
+    return f"({c_events(sched, obs)}, {czlist(obs['lats'])}, {c_batches(obs)}, {ans}, {czlist(obs['cancelled'])})"
+
+
 def c_case_x(sched, obs):
     return f"({c_events(sched, obs)}, {czlist(obs['lats'])}, {c_batches(obs)}, {czlist([a['id'] for a in obs['answers']])})"
 
@@ -633,7 +663,8 @@ def sched_key(sched):
 def _slim(obs):
     return {"events": obs["events"], "latencies_us": obs["lats"], "batches": obs["batches"],
             "answers": [{"id": a["id"], "t": a["t"], "words": a["words"], "value_bits": a["value_bits"]} for a in obs["answers"]],
-            "unanswered": obs["unanswered"], "end": obs["end"], "worker_error": obs["worker_error"]}
+            "unanswered": obs["unanswered"], "cancelled": obs.get("cancelled", []), "end": obs["end"],
+            "worker_error": obs["worker_error"]}
 
 
 def _group_sizes(sched):
@@ -670,8 +701,13 @@ def grpc_session(which, positions, transformer, lat):
     def on_batch(pos, mask):
         seen.append([pos[i][~mask[i]].tolist() for i in range(pos.shape[0])])
 
-    model = (_make_recording(torch, _make_hash_model(torch, lambda p, m: None), on_batch, outs) if which == "hash"
-             else _make_recording(torch, transformer, on_batch, outs))
+    served = None
+    if which == "hash":
+        model = _make_recording(torch, _make_hash_model(torch, lambda p, m: None), on_batch, outs)
+    else:
+        # the model as it is served: float32, or converted like TrainingRun does with Config.serve_dtype
+        served = transformer if which == "transformer" else copy.deepcopy(transformer).to(HALF[which])
+        model = _make_recording(torch, served, on_batch, outs)
     loop.set_default_executor(VExecutor(loop, [lat], log, used))
     server = srv.Server(model=model)
     worker = loop.create_task(server.worker_loop())
@@ -692,8 +728,21 @@ def grpc_session(which, positions, transformer, lat):
             probs, value = net.evaluate(p)
         except BaseException as e:  # noqa
             rec["error"] = repr(e)[:300]
+            if worker.done() and not worker.cancelled() and worker.exception() is not None:
+                rec["error"] = "worker_loop died: " + repr(worker.exception())[:300] + " (the request is never answered)"
             out.append(rec)
             break
+        if served is not None:
+            # local evaluation of the position with the SAME (converted) model, cast to float32
+            with torch.inference_mode():
+                lo = served(torch.tensor([enc], dtype=torch.long))
+                lp = torch.softmax(lo["moves"], dim=-1)[0].to(torch.float32).numpy()
+                lv = float(lo["values"][0].to(torch.float32))
+            cp = probs.to(torch.float32).numpy() if hasattr(probs, "numpy") else None
+            rec["expected_len"] = int(lp.shape[0])
+            rec["client_len"] = None if cp is None else int(cp.shape[0])
+            rec["max_diff_to_local"] = (None if cp is None or cp.shape != lp.shape
+                                        else float(max(np.abs(cp - lp).max(), abs(float(value) - lv))))
         o = outs[-1]
         sw = torch.softmax(o["moves"], dim=-1).to(dtype=torch.float32).numpy()[-1]
         sv = o["values"].to(dtype=torch.float32).numpy()[-1]
@@ -719,12 +768,34 @@ def grpc_session(which, positions, transformer, lat):
     return out
 
 
-def grpc_roundtrips(run, n_hash, n_xf, transformer):
+HALF = {}   # "bfloat16"/"float16" -> torch dtype, filled by half_dtypes()
+
+
+def half_dtypes(transformer):
+    """reduced-precision dtypes in which torch can run the model on this CPU -> (usable, {skipped: reason})"""
+    import torch
+    usable, skipped = [], {}
+    for name in ("bfloat16", "float16"):
+        HALF[name] = getattr(torch, name)
+        try:
+            with torch.inference_mode():
+                m = copy.deepcopy(transformer).to(HALF[name])
+                o = m(torch.tensor([[1, 2, 3, 0]], dtype=torch.long), torch.tensor([[False, False, False, True]]))
+                torch.softmax(o["moves"], dim=-1).to(device="cpu", dtype=torch.float32).numpy()
+            usable.append(name)
+        except Exception as e:  # noqa
+            skipped[name] = repr(e)[:200]
+    return usable, skipped
+
+
+def grpc_roundtrips(run, n_hash, n_xf, transformer, n_half=0):
     """GRPCNetwork.evaluate on played positions -> list of records"""
     import tak
     rng = run.rng
     out = []
-    for which, n in (("hash", n_hash), ("transformer", n_xf)):
+    usable, skipped = half_dtypes(transformer) if n_half else ([], {})
+    run.extra["served_half_precision"] = {"run": usable, "skipped (torch cannot run it on this CPU)": skipped}
+    for which, n in [("hash", n_hash), ("transformer", n_xf)] + [(h, n_half) for h in usable]:
         positions = []
         for _ in range(n):
             p = tak.Position.from_config(tak.Config(size=rng.choice([3, 4, 5, 6])))
@@ -758,6 +829,13 @@ def grpc_py_check(r):
         w, v = py_ref(r["encoded"])
         if r["client_words"] != w or r["client_value_bits"] != v:
             bad.append("client result is not the model's value on the position")
+    else:
+        tol = 1e-4 if r["model"] == "transformer" else 1e-2
+        if r["client_len"] != r["expected_len"]:
+            bad.append(f"client policy vector has {r['client_len']} entries instead of {r['expected_len']} (model served in {r['model']})")
+        elif r["max_diff_to_local"] is None or not r["max_diff_to_local"] <= tol:
+            bad.append(f"client (probs, value) differ from local evaluation of the same {r['model']} model by "
+                       f"{r['max_diff_to_local']} (tolerance {tol})")
     return bad
 
 
@@ -795,7 +873,7 @@ def _fresh(run, key, family, cap=3):
 
 def _report(run, cs, sched, obs, term, clauses, source):
     key = f"sched-{sched['kind']}-{sched_key(sched)}"
-    if not _fresh(run, key, "sched"):
+    if not _fresh(run, key, "cancel" if sched["kind"].startswith("cancel-") else "sched"):
         return
     view = cs.model_view(term) if cs is not None else None
     run.violation(key, {
@@ -905,8 +983,37 @@ def correspondence(run):
                                                          "schedule": sched, "impl_observation": _slim_x(obs),
                                                          "model_view": csx.model_view(term)}, found_input=False)
 
+    # ---- callers cancelled while they wait (outside the property's quantifier: evidence that the live requests
+    # of the same batch still get their own answers; the cancelled request is served and its answer discarded)
+    csk = core.Cases(ID, "cancel", HEADER, CTYPE_K, CHECK_K, show=SHOW_K, shard=10)
+    ks, n_cancelled, n_shared = [], 0, 0
+    for sched in schedule_stream(run, 24 if quick else 200, 40, with_backpressure=False):
+        ids = [a[0] for a in sched["arrivals"]]
+        sched["cancel"] = sorted(run.rng.sample(ids, min(len(ids), run.rng.randint(1, 3))))
+        sched["kind"] = "cancel-" + sched["kind"]
+        obs = run_schedule(sched["arrivals"], sched["lats"], cancels=sched["cancel"])
+        term = c_case_k(sched, obs)
+        csk.add(term, {"sched": sched, "obs": _slim(obs)})
+        ks.append((sched, obs, term))
+        n_cancelled += len(obs["cancelled"])
+        n_shared += sum(1 for _, rows in obs["batches"] if set(rows) & set(obs["cancelled"]) and set(rows) - set(obs["cancelled"]))
+        bad = oracle(sched["arrivals"], obs)
+        if bad:
+            _report(run, csk, sched, obs, term, bad, "oracle on a schedule with cancelled callers")
+    failing_k, shard_fail_k, nshk = csk.run()
+    run.oblige(f"correspondence:schedules with cancelled callers ({nshk} shards)", not shard_fail_k, str(shard_fail_k)[:1500])
+    run.count(len(ks), n_shared, "schedules in which 1-3 callers are cancelled 25 us after arriving (never while blocked in put): "
+              "batches and timing as the model predicts, every live request answered with its own value; non-trivial = model calls "
+              "holding a cancelled and a live request", [], {"cancelled_callers": n_cancelled, "mixed_model_calls": n_shared},
+              label="cancel")
+    for meta in failing_k[:3]:
+        sched = meta["sched"]
+        idx = next(i for i, (s_, _, _) in enumerate(ks) if s_ is sched)
+        _, obs, term = ks[idx]
+        _report(run, csk, sched, obs, term, oracle(sched["arrivals"], obs), "correspondence (cancelled callers) with model/Server.v")
+
     # ---- GRPCNetwork.evaluate: float32 words -> bytes -> tensor, bit for bit
-    recs = grpc_roundtrips(run, 40 if quick else 300, 3 if quick else 12, tf)
+    recs = grpc_roundtrips(run, 40 if quick else 300, 3 if quick else 12, tf, n_half=2 if quick else 8)
     csc = core.Cases(ID, "codec", HEADER, CTYPE_C, CHECK_C, show=SHOW_C, shard=20)
     # replies of the real Transformer (4572 words + 18288 bytes each) are cut into slices of CHUNK words
     cscx = core.Cases(ID, "codecx", HEADER, CTYPE_C, CHECK_C, show=SHOW_C, shard=2)
@@ -927,7 +1034,7 @@ def correspondence(run):
               "the model call is one row equal to encoding.encode(pos) (Python); non-trivial = distinct policy vectors",
               [{"tps": recs[0]["tps"], "encoded": recs[0]["encoded"], "bytes_head": recs[0].get("bytes", [])[:16],
                 "client_words_head": (recs[0].get("client_words") or [])[:4]}] if recs else [],
-              {"hash_model": sum(1 for r in recs if r["model"] == "hash"), "transformer": sum(1 for r in recs if r["model"] != "hash")},
+              {m: sum(1 for r in recs if r["model"] == m) for m in sorted({r["model"] for r in recs})},
               label="codec")
     for meta in failing_c:
         r = meta["rec"]
@@ -976,6 +1083,8 @@ def replay(run, rp):
         r0 = rp["record"]
         p = ptn.parse_tps(r0["tps"])
         tf = make_transformer(int(rp.get("seed", run.seed)) % 1000) if r0["model"] != "hash" else None
+        if r0["model"] in ("bfloat16", "float16"):
+            half_dtypes(tf)
         # the same client/server pair serves an empty board, then the recorded position twice (stale replies show up)
         recs = grpc_session(r0["model"], [tak.Position.from_config(tak.Config(size=p.size)), p, p], tf, r0.get("latency_us", 300))
         small = core.Cases(ID, "replay", HEADER, CTYPE_C, CHECK_C, show=SHOW_C, shard=4)
@@ -997,10 +1106,14 @@ def replay(run, rp):
         cs = core.Cases(ID, "replay", HEADER, CTYPE_X, CHECK_X, show=SHOW_X, shard=1)
         term = c_case_x(sched, obs)
     else:
-        obs = run_schedule(sched["arrivals"], sched["lats"])
+        obs = run_schedule(sched["arrivals"], sched["lats"], cancels=sched.get("cancel", ()))
         bad = oracle(sched["arrivals"], obs)
-        cs = core.Cases(ID, "replay", HEADER, CTYPE, CHECK, show=SHOW, shard=1)
-        term = c_case(sched, obs)
+        if sched.get("cancel"):
+            cs = core.Cases(ID, "replay", HEADER, CTYPE_K, CHECK_K, show=SHOW_K, shard=1)
+            term = c_case_k(sched, obs)
+        else:
+            cs = core.Cases(ID, "replay", HEADER, CTYPE, CHECK, show=SHOW, shard=1)
+            term = c_case(sched, obs)
     cs.add(term, {})
     failing, shard_fail, _ = cs.run()
     return {"violates": bool(bad or failing or shard_fail), "oracle": bad, "model_agrees": not (failing or shard_fail),
